@@ -1,0 +1,15 @@
+//go:build verif
+
+package radius
+
+import "net"
+
+// VerifC15Addr returns the local address the CoA/Disconnect listener is bound
+// to (nil before Start). It lets a harness start the real listener on
+// "127.0.0.1:0" and learn the port the kernel chose.
+func (s *CoAServer) VerifC15Addr() net.Addr {
+	if s.conn == nil {
+		return nil
+	}
+	return s.conn.LocalAddr()
+}
